@@ -219,7 +219,7 @@ func c02Do(c *core.C, idx int, race bool) {
 		{"config ls-lint-rules", []string{"config", "ls-lint-rules", "--configured-only", "--format", "json", "--module-path", s.Modules[0].Dir}, wsDir},
 		{"config ls-breaking-rules", []string{"config", "ls-breaking-rules", "--configured-only", "--format", "json", "--module-path", s.Modules[0].Dir}, wsDir},
 	}
-	reps := c.Pick(4, 14)
+	reps := c.Pick(4, 10)
 	if race {
 		reps = c.Pick(3, 5)
 		// the race build is 5–10× slower: the commands that run jobs in parallel are enough there
@@ -474,7 +474,7 @@ func init() {
 		ID:    "C02",
 		Level: "exploration",
 		Rule: "per PRNG-generated workspace (3–5 modules incl. one whose packages form two import cycles sharing the first hop, lint plants, unformatted files, an edited copy for breaking): 21 commands " +
-			"(build binpb/json/txtpb/yaml, build --path, build --type (random and related: nested+enclosing, method+service), lint json/text/junit/github-actions, breaking junit, breaking, format, format -d, ls-files ±imports, dep graph dot/json, config ls-lint-rules/ls-breaking-rules) each executed 4 (quick) / 14 (thorough) times under GOMAXPROCS∈{1,2,4,16} × parallelism∈{1,2,3,16} × seeded yields at job dispatch × permuted flag order, " +
+			"(build binpb/json/txtpb/yaml, build --path, build --type (random and related: nested+enclosing, method+service), lint json/text/junit/github-actions, breaking junit, breaking, format, format -d, ls-files ±imports, dep graph dot/json, config ls-lint-rules/ls-breaking-rules) each executed 4 (quick) / 10 (thorough) times under GOMAXPROCS∈{1,2,4,16} × parallelism∈{1,2,3,16} × seeded yields at job dispatch × permuted flag order, " +
 			"plus permuted modules/rule ids in buf.yaml and shuffled storage walk order at library level; repeated in the -race build. A (workspace, command) pair is counted non-trivial only if ≥2 distinct job-completion orders were actually observed through the thread hook trace",
 		Assumptions: []string{
 			"only the mtime stamps in the ---/+++ headers that diff(1) prints for `format -d` are masked; they are a function of wall-clock time, which the property does not quantify over",
@@ -483,7 +483,7 @@ func init() {
 		},
 		Cases: func(tier string) int {
 			if tier == "thorough" {
-				return 300
+				return 120
 			}
 			return 20
 		},
